@@ -114,7 +114,7 @@ RULE = (
     "consecutive output times) through ONE propagateBulk call with the step boundaries as output times; "
     "(vi) coincide - every thrust kind {eci, ntw burn; spiral, plane-change maneuver} x 5 intervals "
     "(start / end on and off the step grid, across a boundary, inside one step) x impulse {at t_start, at t_end, at "
-    "the middle, on the step boundary inside the burn, after the burn} x impulse frame {ECI, NTW} x both list orders x "
+    "the middle, on the step boundary inside the burn, after the burn (quick: TwoBody only)} x impulse frame {ECI, NTW} x both list orders x "
     "{propagate in one call, a real TargetAgent stepped as the propagation job does, propagateBulk with the step "
     "boundaries as output times} on TwoBody (every step size) and SpecialPerturbations (quick: dt=60), compared at "
     "every output time with the independent integration (thrust only inside [t_start, t_end], the delta-v added once, "
@@ -383,7 +383,7 @@ def items(tier, seed):
             idxs = list(range(len(_ci_intervals(dt))))
             # items of roughly equal cost: SpecialPerturbations is ~15x dearer per trajectory than TwoBody
             for chunk in fw.chunked(idxs, 1 if model == "special_perturbations" else len(idxs)):
-                out.append(("coincide", model, dt, kind, seed, chunk))
+                out.append(("coincide", model, dt, kind, seed, chunk, _ci_with_outside(tier, model)))
         out.append(("columns2", model, dt, seed))
         for kind in KINDS:
             out.append(("degenerate", model, dt, kind, seed))
@@ -462,7 +462,8 @@ def bounds(tier, seed):
                                        for dt in sorted({dt for _, dt in _ci_dims(tier)})},
                          "impulse_positions": {str(i): _ci_positions(60, i) for i in range(len(_ci_intervals(60)))},
                          "impulse_frames": ["eci", "ntw"], "impulse_dv_km_s": CI_DV, "list_orders": CI_ORDERS,
-                         "modes": CI_MODES, "steps": CI_STEPS},
+                         "modes": CI_MODES, "steps": CI_STEPS,
+                         "impulse_after_the_burn_flown_on": [MODELS[m] for m in MODELS if _ci_with_outside(tier, m)]},
             "columns2": {"dynamics_x_step": [[MODELS[m], dt] for m, dt in _ci_dims(tier)],
                          "kinds": ["ntw", "plane_change"], "interval": "[dt+1, 3dt]",
                          "impulse_at": ["t_start", "t_end", "2dt+7"], "modes": ["split", "bulk"]},
@@ -1295,86 +1296,85 @@ def _run_protocol(res, item):
     y0 = np.array([7000.0, -200.0, 350.0, 1.0, -2.0, 0.5])
     dyn = _FreeFlight()
     for ts, te in _proto_pairs():
-        if True:
-            case = {"t_start": ts, "t_end": te, "dt": dt, "start_on_grid": _on_grid(ts, dt), "end_on_grid": _on_grid(te, dt)}
-            state = y0.copy()
-            del STEP_LOG[:]
-            err = None
-            try:
-                for j in range(3):
-                    WATCHDOG.reset()
-                    ev = ScheduledFiniteBurn(ScenarioTime(ts), ScenarioTime(te), func, 1)
-                    state = dyn.propagate(ScenarioTime(j * dt), ScenarioTime((j + 1) * dt), state, scheduled_events=[ev])
-                    STEP_LOG.extend(WATCHDOG.log)
-            except Exception as exc:  # noqa: BLE001
-                err = f"{type(exc).__name__}: {exc}"
-            if err is not None:
-                res.case("protocol/on_time", case, False, nontrivial=True, signature="C15/protocol/on_time/error",
-                         observed=err, item=item)
-                continue
-            # thrust time actually delivered, from the velocity gained along the thrust direction (exact: no gravity)
-            on = float((state[3:] - y0[3:]) @ acc / (acc @ acc))
-            want = _overlap(ts, te, 0.0, 180.0)
-            # rounding: 1e-5 km/s^2 * 180 s on |v| ~ 2 km/s -> 1e-16/1e-5 = 1e-11 s; event roots are located to 4 ulp
-            tol = 1e-8
-            ok = abs(on - want) <= tol
-            region = "end_on_grid" if _on_grid(te, dt) else "end_off_grid"
-            if te == ts:
-                region = "zero_length_on_grid" if _on_grid(te, dt) else "zero_length_off_grid"
-            label = "exact"
-            if not ok:
-                label = "unexplained"
-                if not _on_grid(te, dt) and abs(on - _overlap(ts, _next_grid_after(te, dt), 0.0, 180.0)) <= tol:
-                    label = "thrust_runs_to_step_end"
-                elif te == ts and abs(on - _overlap(ts, ts + dt, 0.0, 180.0)) <= tol:
-                    label = "thrust_runs_to_step_end"  # on the grid: through the whole call that starts there
-                elif region == "end_on_grid" and abs(on) <= tol and _inside_one_integrator_step(ts, te):
-                    label = "burn_inside_one_integrator_step_skipped"
-            nontriv = (not _on_grid(ts, dt)) or (not _on_grid(te, dt)) or te - ts > dt or te == ts
-            res.case("protocol/on_time", case, ok, nontrivial=nontriv,
-                     signature=f"C15/protocol/on_time/FreeFlight/{region}/{label}",
-                     observed={"thrust_seconds": on}, expected={"thrust_seconds": want}, outcome=label, item=item)
-            # position: x(180) = x0 + v0*180 + a * (T1^2/2 ... ) for thrust on [s, e]: a*((e-s)*(180-e) + (e-s)^2/2)
-            if ok:
-                s_, e_ = max(ts, 0.0), min(te, 180.0)
-                dx = acc * ((e_ - s_) * (180.0 - e_) + 0.5 * (e_ - s_) ** 2) if e_ > s_ else 0.0 * acc
-                want_r = y0[:3] + y0[3:] * 180.0 + dx
-                res.case("protocol/position", case, fw.maxabs(state[:3], want_r) <= 1e-8, nontrivial=nontriv,
-                         signature="C15/protocol/position", observed=state[:3], expected=want_r, item=item)
-            res.observe(state, on)
-            # the same burn through ONE propagate call [0, 180] (no call boundary at any instant of the alphabet)
-            ocase = dict(case, mode="one_call")
-            try:
-                got = _ff_fly(dyn, y0, lambda: [ScheduledFiniteBurn(ScenarioTime(ts), ScenarioTime(te), func, 1)],
-                              "one_call", dt, 3)
-                on1 = float((got[180.0][3:] - y0[3:]) @ acc / (acc @ acc))
-                lab1 = "exact" if abs(on1 - want) <= tol else \
-                    "thrust_runs_to_step_end" if abs(on1 - _overlap(ts, 180.0, 0.0, 180.0)) <= tol else "unexplained"
-                res.case("protocol/one_call_on_time", ocase, abs(on1 - want) <= tol, nontrivial=True,
-                         signature=f"C15/protocol_one_call/on_time/FreeFlight/{region}/{lab1}",
-                         observed={"thrust_seconds": on1}, expected={"thrust_seconds": want}, outcome=lab1, item=item)
-                res.observe(on1)
-            except Exception as exc:  # noqa: BLE001
-                res.case("protocol/one_call_on_time", ocase, False, nontrivial=True,
-                         signature=f"C15/protocol_one_call/on_time/FreeFlight/{region}/error",
-                         observed=f"{type(exc).__name__}: {exc}"[:300], item=item)
-            # the same burn through ONE propagateBulk call, output times 60, 120, 180: velocity at every output time
-            bcase = dict(case, mode="bulk")
-            try:
-                got = _ff_fly(dyn, y0, lambda: [ScheduledFiniteBurn(ScenarioTime(ts), ScenarioTime(te), func, 1)], "bulk",
-                              dt, 3)
-            except Exception as exc:  # noqa: BLE001
-                res.case("protocol/bulk_on_time", bcase, False, nontrivial=True,
-                         signature=f"C15/protocol_bulk/on_time/FreeFlight/{region}/error",
-                         observed=f"{type(exc).__name__}: {exc}"[:300], item=item)
-                continue
-            err_v = max(fw.maxabs(y[3:], y0[3:] + acc * _overlap(ts, te, 0.0, t)) for t, y in got.items())
-            res.case("protocol/bulk_on_time", bcase, err_v <= PROTO2_TOL_V, nontrivial=True,
-                     signature=f"C15/protocol_bulk/on_time/FreeFlight/{region}/"
-                               f"{'exact' if err_v <= PROTO2_TOL_V else 'unexplained'}",
-                     observed={"max_dv_km_s": err_v, "equivalent_thrust_s": err_v / float(np.max(np.abs(acc)))},
-                     expected={"max_dv_km_s": f"<= {PROTO2_TOL_V}"}, item=item)
-            res.observe(got[180.0], err_v)
+        case = {"t_start": ts, "t_end": te, "dt": dt, "start_on_grid": _on_grid(ts, dt), "end_on_grid": _on_grid(te, dt)}
+        state = y0.copy()
+        del STEP_LOG[:]
+        err = None
+        try:
+            for j in range(3):
+                WATCHDOG.reset()
+                ev = ScheduledFiniteBurn(ScenarioTime(ts), ScenarioTime(te), func, 1)
+                state = dyn.propagate(ScenarioTime(j * dt), ScenarioTime((j + 1) * dt), state, scheduled_events=[ev])
+                STEP_LOG.extend(WATCHDOG.log)
+        except Exception as exc:  # noqa: BLE001
+            err = f"{type(exc).__name__}: {exc}"
+        if err is not None:
+            res.case("protocol/on_time", case, False, nontrivial=True, signature="C15/protocol/on_time/error",
+                     observed=err, item=item)
+            continue
+        # thrust time actually delivered, from the velocity gained along the thrust direction (exact: no gravity)
+        on = float((state[3:] - y0[3:]) @ acc / (acc @ acc))
+        want = _overlap(ts, te, 0.0, 180.0)
+        # rounding: 1e-5 km/s^2 * 180 s on |v| ~ 2 km/s -> 1e-16/1e-5 = 1e-11 s; event roots are located to 4 ulp
+        tol = 1e-8
+        ok = abs(on - want) <= tol
+        region = "end_on_grid" if _on_grid(te, dt) else "end_off_grid"
+        if te == ts:
+            region = "zero_length_on_grid" if _on_grid(te, dt) else "zero_length_off_grid"
+        label = "exact"
+        if not ok:
+            label = "unexplained"
+            if not _on_grid(te, dt) and abs(on - _overlap(ts, _next_grid_after(te, dt), 0.0, 180.0)) <= tol:
+                label = "thrust_runs_to_step_end"
+            elif te == ts and abs(on - _overlap(ts, ts + dt, 0.0, 180.0)) <= tol:
+                label = "thrust_runs_to_step_end"  # on the grid: through the whole call that starts there
+            elif region == "end_on_grid" and abs(on) <= tol and _inside_one_integrator_step(ts, te):
+                label = "burn_inside_one_integrator_step_skipped"
+        nontriv = (not _on_grid(ts, dt)) or (not _on_grid(te, dt)) or te - ts > dt or te == ts
+        res.case("protocol/on_time", case, ok, nontrivial=nontriv,
+                 signature=f"C15/protocol/on_time/FreeFlight/{region}/{label}",
+                 observed={"thrust_seconds": on}, expected={"thrust_seconds": want}, outcome=label, item=item)
+        # position: x(180) = x0 + v0*180 + a * (T1^2/2 ... ) for thrust on [s, e]: a*((e-s)*(180-e) + (e-s)^2/2)
+        if ok:
+            s_, e_ = max(ts, 0.0), min(te, 180.0)
+            dx = acc * ((e_ - s_) * (180.0 - e_) + 0.5 * (e_ - s_) ** 2) if e_ > s_ else 0.0 * acc
+            want_r = y0[:3] + y0[3:] * 180.0 + dx
+            res.case("protocol/position", case, fw.maxabs(state[:3], want_r) <= 1e-8, nontrivial=nontriv,
+                     signature="C15/protocol/position", observed=state[:3], expected=want_r, item=item)
+        res.observe(state, on)
+        # the same burn through ONE propagate call [0, 180] (no call boundary at any instant of the alphabet)
+        ocase = dict(case, mode="one_call")
+        try:
+            got = _ff_fly(dyn, y0, lambda: [ScheduledFiniteBurn(ScenarioTime(ts), ScenarioTime(te), func, 1)],
+                          "one_call", dt, 3)
+            on1 = float((got[180.0][3:] - y0[3:]) @ acc / (acc @ acc))
+            lab1 = "exact" if abs(on1 - want) <= tol else \
+                "thrust_runs_to_step_end" if abs(on1 - _overlap(ts, 180.0, 0.0, 180.0)) <= tol else "unexplained"
+            res.case("protocol/one_call_on_time", ocase, abs(on1 - want) <= tol, nontrivial=True,
+                     signature=f"C15/protocol_one_call/on_time/FreeFlight/{region}/{lab1}",
+                     observed={"thrust_seconds": on1}, expected={"thrust_seconds": want}, outcome=lab1, item=item)
+            res.observe(on1)
+        except Exception as exc:  # noqa: BLE001
+            res.case("protocol/one_call_on_time", ocase, False, nontrivial=True,
+                     signature=f"C15/protocol_one_call/on_time/FreeFlight/{region}/error",
+                     observed=f"{type(exc).__name__}: {exc}"[:300], item=item)
+        # the same burn through ONE propagateBulk call, output times 60, 120, 180: velocity at every output time
+        bcase = dict(case, mode="bulk")
+        try:
+            got = _ff_fly(dyn, y0, lambda: [ScheduledFiniteBurn(ScenarioTime(ts), ScenarioTime(te), func, 1)], "bulk",
+                          dt, 3)
+        except Exception as exc:  # noqa: BLE001
+            res.case("protocol/bulk_on_time", bcase, False, nontrivial=True,
+                     signature=f"C15/protocol_bulk/on_time/FreeFlight/{region}/error",
+                     observed=f"{type(exc).__name__}: {exc}"[:300], item=item)
+            continue
+        err_v = max(fw.maxabs(y[3:], y0[3:] + acc * _overlap(ts, te, 0.0, t)) for t, y in got.items())
+        res.case("protocol/bulk_on_time", bcase, err_v <= PROTO2_TOL_V, nontrivial=True,
+                 signature=f"C15/protocol_bulk/on_time/FreeFlight/{region}/"
+                           f"{'exact' if err_v <= PROTO2_TOL_V else 'unexplained'}",
+                 observed={"max_dv_km_s": err_v, "equivalent_thrust_s": err_v / float(np.max(np.abs(acc)))},
+                 expected={"max_dv_km_s": f"<= {PROTO2_TOL_V}"}, item=item)
+        res.observe(got[180.0], err_v)
     EventStack.logAndFlushEvents()
 
 # ---------------------------------------------------------------------------------------------- two-event schedules
@@ -1913,22 +1913,31 @@ def _ci_dims(tier):
     return [("special_perturbations", 60), ("two_body", 60), ("two_body", 300)]
 
 
+def _ci_with_outside(tier, model):
+    """The control position "impulse after the burn" (nothing coincides) is flown on TwoBody at every step size; the quick
+    tier leaves it out for the ~15x dearer SpecialPerturbations (the thorough tier flies it)."""
+    return not (tier == "quick" and model == "special_perturbations")
+
+
 def _run_coincide(res, item):
-    _, model, dt, kind, seed, idxs = item
+    _, model, dt, kind, seed, idxs, with_outside = item
+    # without the impulse after the burn the free-flying fourth step is not needed (the burns end by 2.5 dt)
+    n_steps = CI_STEPS if with_outside else CI_STEPS - 1
     start = _epoch(seed)
-    world = World(model, dt, start, CI_STEPS)
+    world = World(model, dt, start, n_steps)
     spec = _spec(kind, seed)
     pos, vel = _orbit("up", dt, seed)
-    times = [float((j + 1) * dt) for j in range(CI_STEPS)]
+    times = [float((j + 1) * dt) for j in range(n_steps)]
     t_final = times[-1]
     probe = world.agent(pos, vel)
     gravity = world.gravity(probe)
     y0 = np.array(probe.eci_state, dtype=float)
     aid = probe.simulation_id
-    for idx, where, ti in [(int(i), w, t) for i in idxs for w, t in _ci_positions(dt, int(i))]:
+    for idx, where, ti in [(int(i), w, t) for i in idxs for w, t in _ci_positions(dt, int(i))
+                           if with_outside or w != "outside"]:
         ts, te = (float(x) for x in _ci_intervals(dt)[idx])
         burns = [(ts, te, spec)]
-        one = ("coincide", model, dt, kind, seed, [idx])
+        one = ("coincide", model, dt, kind, seed, [idx], bool(with_outside))
         for frame in ("eci", "ntw"):
             dv = _ci_dv(frame, seed)
             imps = [(ti, dv, frame)]
@@ -1946,7 +1955,7 @@ def _run_coincide(res, item):
                     try:
                         if mode == "split":
                             agent = world.agent(pos, vel)
-                            for _ in range(CI_STEPS):
+                            for _ in range(n_steps):
                                 t_k = float(agent.time)
                                 # delivery as Scenario.stepForward does it: start <= t_k+dt and end > t_k
                                 if ts <= t_k + dt and te > t_k:
@@ -1974,9 +1983,9 @@ def _run_coincide(res, item):
                                 out = dyn.propagateBulk([ScenarioTime(0.0)] + [ScenarioTime(t) for t in times],
                                                         y0[:, None].copy(), scheduled_events=evs)
                                 out = np.array(out, dtype=float)
-                                if out.shape != (6, 1, CI_STEPS):
+                                if out.shape != (6, 1, n_steps):
                                     raise AssertionError(f"propagateBulk returned shape {out.shape}")
-                                lib = [out[:, 0, k] for k in range(CI_STEPS)]
+                                lib = [out[:, 0, k] for k in range(n_steps)]
                                 out_times = times
                     except PropagationStall as exc:
                         err = str(exc)
